@@ -165,6 +165,18 @@ func DegenerateShapes(r *R) []Degenerate {
 		f.Services = []*ir.Service{s}
 		add("wide_message_many_methods", f)
 	}
+	// 11b. empty string literals: a rule `const: ""`, `in: ["", "a"]` and a field example `""`
+	{
+		f := mk("emptylit", "d.emptylit")
+		e := ""
+		f.Messages = []*ir.Message{{Name: "Q", Fields: []*ir.Field{
+			{Name: "suffix", Number: 1, Kind: "string", Ann: ir.Ann{Examples: []string{"", "Jr."}}},
+			{Name: "none", Number: 2, Kind: "string", Rules: &ir.Rules{StrConst: &e}},
+			{Name: "some", Number: 3, Kind: "string", Rules: &ir.Rules{StrIn: []string{"", "a"}}},
+		}}}
+		f.Services = []*ir.Service{svcFor("d.emptylit", "Q", "Q")}
+		add("empty_string_literals", f)
+	}
 	// 12a. a request of more than 6 MiB: an imported tree of 40 files with 40 messages of four fields whose
 	// names take 1000 characters each (the generated file itself is small)
 	{
